@@ -34,6 +34,16 @@ def _(fobj: "bytes"):
     ghost(loop_exit=1, do=[nul_from_is(B, p + 6 + 128, file_pos(fobj)),
                            assert_(rec_end(B, p) == file_pos(fobj)),
                            assert_(setting.value == B[p + 6:rec_end(B, p)])])
+    ghost(before="yield setting", do=[assert_(not tlv_stop(B, p)),
+                                      assert_(file_pos(fobj) == rec_end(B, p)),
+                                      assert_(tlv(B, p) == [tlv_rec(B, p)] + tlv(B, file_pos(fobj))),
+                                      assert_(setting.value == B[p + 6:rec_end(B, p)]),
+                                      assert_(setting.length == be16(B, p + 4)),
+                                      assert_(setting.type == be16(B, p + 2)),
+                                      assert_(setting.index == be16(B, p)),
+                                      let("y0", yielded)])
+    ghost(after="yield setting", do=[assert_(yielded == y0 + [tlv_rec(B, p)]),
+                                     assert_(y0 + tlv(B, p) == yielded + tlv(B, file_pos(fobj)))])
     domain(fobj=gen_config_blocks())
 
 
